@@ -13,6 +13,7 @@ From Tx Require Filters.Loss Filters.Tbf Filters.RouterDelay.
 From Tx Require VnetAddr.Model.
 From Tx Require Ctx.Model.
 From Tx Require UdpListener.Conc.
+From Tx Require ReplayDetector.Deferred.
 From Tx Require Vnet.Network.
 From Tx Require ReadDeadline.Model.
 From Tx Require UdpListener.Model.
@@ -25,7 +26,13 @@ Definition is_fbi (conf : zs) : bool := match conf with k :: _ => Z.eqb k 2 | _ 
 Definition e_rd_model (r : req) : list zs :=
   match r with
   | (conf :: _) :: ops :: _ =>
-      if is_fbi conf then ReplayDetector.Words.fbi_model_run conf ops else ReplayDetector.Model.rd_run conf ops
+      if is_fbi conf then ReplayDetector.Words.fbi_model_run conf ops
+      else match conf with
+           | 0%Z :: w :: m :: _ =>   (* plain detector: the runner that also knows kept callbacks (Deferred.v) *)
+               ReplayDetector.Deferred.px_run {| ReplayDetector.Model.window := w; ReplayDetector.Model.maxSeq := m |}
+                 ReplayDetector.Model.p_init 0%Z [] ops
+           | _ => ReplayDetector.Model.rd_run conf ops
+           end
   | (conf :: _) :: [] => ReplayDetector.Model.rd_run conf []
   | _ => []
   end.
@@ -39,7 +46,12 @@ Definition e_rd_spec (r : req) : list zs :=
 Definition e_rd_oracle (r : req) : list zs :=
   match r with
   | (conf :: _) :: ops :: observed :: _ =>
-      if is_fbi conf then [List.map (fun _ => 0%Z) ops] else [ReplayDetector.Spec.rd_oracle conf ops observed]
+      if is_fbi conf then [List.map (fun _ => 0%Z) ops]
+      else match conf with
+           | 0%Z :: w :: m :: _ =>
+               [ReplayDetector.Deferred.px_oracle {| ReplayDetector.Model.window := w; ReplayDetector.Model.maxSeq := m |} [] 0%Z [] ops observed]
+           | _ => [ReplayDetector.Spec.rd_oracle conf ops observed]
+           end
   | _ => []
   end.
 
